@@ -1473,6 +1473,10 @@ class basic_inode_4 : public basic_inode_4_parent<ArtPolicy> {
     if (child_to_leave_ptr.type() != node_type::LEAF) {
       auto* const inode_to_leave_ptr{
           child_to_leave_ptr.template ptr<inode_type*>()};
+#ifdef UNODB_DETAIL_VERIF_HOOKS
+      unodb::verif::event(unodb::verif::EV_PREPEND_ON_SIBLING,
+                          inode_to_leave_ptr);
+#endif
       inode_to_leave_ptr->get_key_prefix().prepend(
           this->get_key_prefix(), keys.byte_array[child_to_leave]);
     }
